@@ -238,6 +238,13 @@ func c01Run(c *core.Ctx) {
 			}
 		}
 	}
+	for _, cs := range deepCases(c) {
+		if c.Next() {
+			c01One(c, cs)
+			cs.NoCB = true
+			c01One(c, cs)
+		}
+	}
 	c01Cells(c)
 	c01Ladder(c)
 	c01TimeLadder(c)
@@ -303,17 +310,28 @@ func cpuNow() time.Duration {
 }
 
 // c01TimeLadder: work that the step hooks cannot see (loops in helpers such as the line table) is bounded
-// through CPU time: 8 times the input may cost at most 25 times the CPU time (linear: about 8, quadratic: 64).
+// through CPU time: 8 times the input may cost at most 40 times the CPU time (linear: about 8, measured up to 18 with the collector at work, quadratic: 64).
 // Minimum of three runs per size; CPU time, not wall time, so a busy machine does not matter.
 func c01TimeLadder(c *core.Ctx) {
-	units := []string{"$a;\n", "// c\n", "\n", "'x'\n;", "$a = \"b $c\";\n", "/* c\n */\n", "?>\nh\n<?php\n", "f(1,\n2);\n"}
-	for _, u := range units {
+	type form struct{ pre, unit, post string }
+	var forms []form
+	for _, u := range []string{"$a;\n", "// c\n", "\n", "'x'\n;", "$a = \"b $c\";\n", "/* c\n */\n", "?>\nh\n<?php\n", "f(1,\n2);\n"} {
+		forms = append(forms, form{"<?php\n", u, ""})
+	}
+	// one very long token, and deep (balanced) nesting
+	forms = append(forms,
+		form{"<?php '", "ab", "';"}, form{"<?php \"", "a$b ", "\";"}, form{"<?php /*", "ab\n", "*/"}, form{"<?php $", "ab", ";"}, form{"<?php ", "12", ";"},
+		form{"<?php 0x", "1f", ";"}, form{"<?php <<<A\n", "a $b\n", "A;\n"}, form{"<?php <<<'", "Ab", "'\nx\n"}, form{"<?php \"$a[", "12", "]\";"}, form{"", "ab\n", "<?php ;"},
+		form{"<?php __halt_compiler();", "ab\n", ""}, form{"<?php a", "\\a", ";"}, form{"<?php $a", "->b", ";"}, form{"<?php $a = ", "1 + ", "1;"}, form{"<?php $a = ", "[", "1;"},
+		form{"<?php f(", "1, ", "1);"}, form{"<?php $a", "[1]", ";"}, form{"<?php ", "if ($a) ", ";"}, form{"<?php ", "{", ""}, form{"<?php ", "#c\r", ""})
+	for _, fm := range forms {
+		pre, u, post := fm.pre, fm.unit, fm.post
 		for _, v := range []*version.Version{drive.V74, drive.V56} {
 			if !c.Next() {
 				continue
 			}
 			measure := func(k int) time.Duration {
-				src := []byte("<?php\n" + strings.Repeat(u, k))
+				src := []byte(pre + strings.Repeat(u, k) + post)
 				best := time.Duration(1 << 62)
 				for r := 0; r < 3; r++ {
 					drive.SetBlockSize(drive.ProdBlock)
@@ -336,10 +354,11 @@ func c01TimeLadder(c *core.Ctx) {
 				continue // crashes and hangs are reported by the step ladder
 			}
 			c.Max("max_cpu_time_ratio_x8_input_x100", int64(big*100/(small+1)))
-			if big > 25*small+50*time.Millisecond {
-				cs := mkCase("<?php\n"+strings.Repeat(u, 40), v, "CPU-time ladder")
-				cs.Text = fmt.Sprintf("<?php + %q x 4000 / x 32000", u)
-				c.Report("CPU time grows faster than the input (more than 25x for 8x the input)", mkWhat("%q: %v for 4000 copies, %v for 32000 copies (minimum of 3 runs each)", u, small, big), cs)
+			c.Max(fmt.Sprintf("cpu_ratio_x100 %q+%q*k+%q %s", pre, u, post, verStr(v)), int64(big*100/(small+1)))
+			if big > 40*small+50*time.Millisecond {
+				cs := mkCase(pre+strings.Repeat(u, 40)+post, v, "CPU-time ladder")
+				cs.Text = fmt.Sprintf("%q + %q x 4000 / x 32000 + %q", pre, u, post)
+				c.Report("CPU time grows faster than the input (more than 40x for 8x the input)", mkWhat("%q: %v for 4000 copies, %v for 32000 copies (minimum of 3 runs each)", u, small, big), cs)
 			}
 		}
 	}
@@ -350,7 +369,7 @@ func init() {
 		Prop: "C01", Level: "exploration", Exhaust: true, QuickSecs: 400, ThorSecs: 3000,
 		Rule: "A: every string of <= 3 symbols over the 70-symbol alphabet (all byte literals of scanner.rl + class representatives + mode-switching fragments + hex, binary and overflowing number forms) from each of 15 start contexts (one per scanner machine) under 7.4/5.6/7.2 x {callback, nil}; thorough: one more ring (4 symbols) under 7.4; <= 4 (thorough 5) symbols over the 28-symbol core alphabet; <= 2 core symbols under all 12 versions x {callback, nil}. " +
 			"B: every byte-prefix of every rule-level (thorough: 2-path) corpus program of both grammars in three line-terminator layouts and of every special, with and without callback; grammar-action error programs under all versions x {callback, nil}. " +
-			"C: every (LALR state, terminal) cell of both automata — access sentence + terminal + tail — i.e. every configuration in which yacc error recovery can start. D: scaling ladder (64 vs 512 copies of 19 units): scanner/parser steps must grow linearly; CPU-time ladder (4000 vs 32000 copies of 8 line-shaped units, minimum of 3 runs): at most 25x the CPU time for 8x the input. " +
+			"C: every (LALR state, terminal) cell of both automata — access sentence + terminal + tail — i.e. every configuration in which yacc error recovery can start. D: scaling ladder (64 vs 512 copies of 19 units): scanner/parser steps must grow linearly; CPU-time ladder (4000 vs 32000 copies of 28 units: lines, one very long token of each kind, deep nesting and long chains; minimum of 3 runs): at most 40x the CPU time for 8x the input. " +
 			"Oracle: no panic escapes Parse; scanner restarts + Lex calls <= 64+16*len (deterministic hang detector); input buffer unchanged — the parse runs on a write-protected mapping, so any store into the input faults, also one that rewrites the same bytes; err == nil. non-trivial/distinct = distinct input byte strings",
 		Assume: []string{"a scanner that makes progress consumes at least one byte per loop restart (measured maximum on valid code is reported as max_steps_per_input_byte_x100)"},
 		Run:    c01Run,
